@@ -272,7 +272,7 @@ def run(tier, seed, part=None):
     else:
         plans = [({"max_send": 3, "max_fault": 6, "max_adv": 2}, 10, 1), ({"max_send": 2, "max_fault": 4, "max_adv": 2}, 8, 2),
                  ({"max_send": 3, "max_fault": 2, "max_adv": 2, "stall": True}, 9, 1)]
-        cap = 600
+        cap = 300
     for gen in (4, 5):
         for extra, depth, dev in plans:
             params = dict(gen=gen, macro=(dev == 0), **extra)
